@@ -195,10 +195,13 @@ class XMLResourceLoader:
         Returns an XPath node for the element, fetching it from the XPath root node.
         Returns a new lazy element node if the matching element node is not found.
         """
-        xpath_node = self.xpath_root.get_element_node(elem)
-        if isinstance(xpath_node, ElementNode):
-            return xpath_node
+        if not self._lazy:
+            xpath_node = self.xpath_root.get_element_node(elem)
+            if isinstance(xpath_node, ElementNode):
+                return xpath_node
 
+        # With a lazy resource a cached node may have been built when
+        # the parsing of the element was still incomplete: use a new one.
         try:
             return LazyElementNode(elem, nsmap=self._nsmaps[elem])
         except KeyError:
